@@ -5,6 +5,7 @@ import glob
 import json
 import math
 import os
+import sys
 import random
 import re
 import shutil
@@ -138,6 +139,12 @@ def run_mc(settings, workers=None, delay=0.0, base_text=None):
     sett = Path(tmp, 'settings.txt')
     sett.write_text(settings['text'], encoding='utf-8')
     outp = Path(tmp, 'MC_Result.txt')
+    if settings.get('stale_lock'):
+        # the lock file an earlier, killed run left next to the result file (pylocker: lock pass, time stamp, owner pid)
+        import subprocess
+        dead = subprocess.Popen([sys.executable, '-c', 'pass'])
+        dead.wait()
+        Path(tmp, '.lock').write_bytes(f'lock-pass-of-a-killed-run\n{0.0:.6f}\n{dead.pid}'.encode())
     saved_env = {k: os.environ.get(k) for k in ('GXV_MC_LOG_DIR', 'GXV_MC_NINPUTS', env.OBSERVER_ENV, env.GUARD, 'TMPDIR')}
     os.environ.update({'GXV_MC_LOG_DIR': logdir, 'GXV_MC_NINPUTS': str(len(settings['inputs'])),
                        env.OBSERVER_ENV: 'gxv.mcobs:hook', env.GUARD: '1', 'TMPDIR': tdir})
